@@ -28,7 +28,7 @@ SPEC = dict(
     quick_s=50, thorough_s=600,
     rule=("one run = one tape: stratum full-stack (3/4) | hooks-direct (1/4); full-stack: link whole|fragmented, security "
           "noise|tls, host IPs of P and Q and two decoy IPs from a 20-address pool on the subnet edges, 3-10 steps of dial round "
-          "(subset of G->P, P->G, G->Q, Q->G run concurrently; per outbound dial a subset of the address forms, optional decoy) | "
+          "(subset of G->P, P->G, G->Q, Q->G run concurrently, each triggered by Swarm.DialPeer | Swarm.NewStream; per outbound dial a subset of the address forms, optional decoy) | "
           "Block/Unblock call (fault: none | process stop after the datastore mutation | I/O error) | clean restart, and a final "
           "round; hooks-direct: 3-20 calls/restarts with a hook sweep after each. Every restart may hit an I/O error in one of "
           "the three load queries first. non-trivial = at least one Block was acknowledged and at least one oracle evaluation "
@@ -41,7 +41,7 @@ SPEC = dict(
             "stop-in-BlockPeer", "stop-in-UnblockPeer", "stop-in-BlockAddr", "stop-in-UnblockAddr", "stop-in-BlockSubnet",
             "stop-in-UnblockSubnet", "io-error-in-BlockPeer", "io-error-in-UnblockPeer", "io-error-in-BlockAddr",
             "io-error-in-UnblockAddr", "io-error-in-BlockSubnet", "io-error-in-UnblockSubnet", "io-error-in-load",
-            "reopen-clean", "reopen-after-stop", "dial-form-dns", "dial-form-ip6-mapped", "dial-with-decoy", "host-ipv6",
+            "reopen-clean", "reopen-after-stop", "dial-form-dns", "dial-form-ip6-mapped", "G-dials-by-DialPeer", "G-dials-by-NewStream", "dial-with-decoy", "host-ipv6",
             "mapped-source", "direct-blocked-ip4", "direct-blocked-ip6", "direct-blocked-ip6-mapped", "direct-blocked-ip6zone",
             "direct-no-ip-form",
             "host-at-v4-first-of-26", "host-at-v4-last-of-26", "host-at-v4-below-26", "host-at-v4-above-26",
